@@ -15,7 +15,7 @@ open Pycoin.Gen.Networks
 /-- exceptions that can leave the modelled functions; printed as the Python class name -/
 inductive Err
   | keyError | typeError | valueError | syntaxError | indexError | assertionError | structError | attributeError
-  | invalidSecretExponent | invalidPublicPair | noSuchPoint | encodingError
+  | invalidSecretExponent | invalidPublicPair | noSuchPoint | encodingError | overflowError
   | fuel          -- never taken: the loop bound of the model was too small (a model bug, not a Python exception)
   | unsupported   -- Groestl-hashed Base58: no model (and `groestlcoin_hash` is not installed in the sandbox)
   deriving DecidableEq, Repr
@@ -25,7 +25,7 @@ def Err.tag : Err → String
   | .syntaxError => "SyntaxError" | .indexError => "IndexError" | .assertionError => "AssertionError"
   | .structError => "error" | .attributeError => "AttributeError"
   | .invalidSecretExponent => "InvalidSecretExponentError" | .invalidPublicPair => "InvalidPublicPairError"
-  | .noSuchPoint => "NoSuchPointError" | .encodingError => "EncodingError"
+  | .noSuchPoint => "NoSuchPointError" | .encodingError => "EncodingError" | .overflowError => "OverflowError"
   | .fuel => "MODEL-FUEL" | .unsupported => "UNSUPPORTED"
 
 inductive BechSpec | bech32 | bech32m
